@@ -467,7 +467,7 @@ def gen_gost(tier, rng, names):
 
 RANDOM_COUNTS = {            # (chacha, hchacha, gost crypt) random cases per tier, generated inside the workers
     "quick": (40000, 8000, 24000),
-    "thorough": (800000, 120000, 500000),
+    "thorough": (500000, 80000, 300000),
 }
 
 
@@ -628,6 +628,7 @@ def evaluate(spec, obs_by_build, infos, sboxes, part, names):
     kind = spec["kind"]
     ran = list(obs_by_build.keys())
     problems = {}       # key-without-scope -> {build: (expected, observed)}
+    diag_cache = {}     # all builds usually fail the same way: diagnose each distinct wrong output once
     parsed = {}
 
     def add(key, build, exp, got):
@@ -696,7 +697,11 @@ def evaluate(spec, obs_by_build, infos, sboxes, part, names):
                 add("oracle:gost28147_init%s:error-on-valid-arguments" % ("_be" if spec["be"] else ""), b, 0, o["rc"])
                 continue
             if o["out"] != exp["out"]:
-                det = gost_diagnose(spec, sboxes, 0, spec["data"], exp["out"], o["out"], spec["sa"], spec["da"])
+                ck0 = (0, o["out"])
+                if ck0 not in diag_cache:
+                    diag_cache[ck0] = gost_diagnose(spec, sboxes, 0, spec["data"], exp["out"], o["out"],
+                                                    spec["sa"], spec["da"])
+                det = diag_cache[ck0]
                 add("oracle:%s:wrong-output:%s" % (entry, det), b, exp["out"], o["out"])
             if spec["dir"] == 2:
                 if o.get("rc2", 0) != 0:
@@ -707,7 +712,10 @@ def evaluate(spec, obs_by_build, infos, sboxes, part, names):
                     dec_cache[ct] = GO.decrypt(spec["key"], tab, ct, be)
                 want = dec_cache[ct]
                 if o["out2"] != want:
-                    det = gost_diagnose(spec, sboxes, 1, ct, want, o["out2"], spec["sa2"], spec["da2"])
+                    ck1 = (1, ct, o["out2"])
+                    if ck1 not in diag_cache:
+                        diag_cache[ck1] = gost_diagnose(spec, sboxes, 1, ct, want, o["out2"], spec["sa2"], spec["da2"])
+                    det = diag_cache[ck1]
                     e2 = gost_entry(spec, 1)
                     rt = "" if ct != exp["out"] else " [round trip: decrypt(encrypt(x)) != x, x=%s]" % spec["data"].hex()
                     add("oracle:%s:wrong-output:%s" % (e2, det), b, want.hex() + rt, o["out2"])
